@@ -20,7 +20,7 @@ def verdictEq (spec impl : String) : String := if spec = impl then "ok" else "ba
     on large inputs they are not evaluated ("na") and the comparison with the model -- which is PROVED
     equal to the specification for every input -- decides alone -/
 def big (ws : List Nat) : Bool := ws.length > 48
-def guardBig (ws : List Nat) (v : String) : String := if big ws then "na" else v
+def guardBig (ws : List Nat) (v : String) : String := if big ws then "big" else v
 def vb (b : Bool) : String := if b then "ok" else "bad"
 
 def showPair (p : Nat × Nat) : String := s!"{p.1},{p.2}"
@@ -30,7 +30,7 @@ def showIPair (p : Int × Nat) : String := s!"{p.1},{p.2}"
 def hIdxRank64 : List String → String → Res
   | [ws, t], impl => do
     let ws ← pNatList ws; let t ← pNat t
-    if big ws then some (showNats (indexRank64 ws (t == 1)), "na") else
+    if big ws then some (showNats (indexRank64 ws (t == 1)), "big") else
     let spec := (List.range (ws.length + t)).map fun k => rank ws (64 * k)
     some (showNats (indexRank64 ws (t == 1)), verdictEq (showNats spec) impl)
   | _, _ => none
@@ -38,7 +38,7 @@ def hIdxRank64 : List String → String → Res
 def hIdxRank128 : List String → String → Res
   | [ws], impl => do
     let ws ← pNatList ws
-    if big ws then some (showNats (indexRank128 ws), "na") else
+    if big ws then some (showNats (indexRank128 ws), "big") else
     let spec := (List.range (ws.length / 2 + 1)).map fun k => rank ws (128 * k)
     some (showNats (indexRank128 ws), verdictEq (showNats spec) impl)
   | _, _ => none
@@ -47,14 +47,14 @@ def hRank64 : List String → String → Res
   | [ws, t, i], impl => do
     let ws ← pNatList ws; let t ← pNat t; let i ← pNat i
     some (showOpt showPair (rank64 ws (indexRank64 ws (t == 1)) i),
-      if big ws then "na" else verdictEq (showPair (rank ws i, (bitAt ws i).toNat)) impl)
+      if big ws then "big" else verdictEq (showPair (rank ws i, (bitAt ws i).toNat)) impl)
   | _, _ => none
 
 def hRank128 : List String → String → Res
   | [ws, i], impl => do
     let ws ← pNatList ws; let i ← pNat i
     some (showOpt showIPair (rank128 ws (indexRank128 ws) i),
-      if big ws then "na" else verdictEq (showPair (rank ws i, (bitAt ws i).toNat)) impl)
+      if big ws then "big" else verdictEq (showPair (rank ws i, (bitAt ws i).toNat)) impl)
   | _, _ => none
 
 /-! C02 -/
@@ -67,7 +67,7 @@ def selSpec (ws : List Nat) (i : Nat) : String :=
 def hIdxSel32 : List String → String → Res
   | [ws], impl => do
     let ws ← pNatList ws
-    if big ws then some (showNats (indexSelect32 ws), "na") else
+    if big ws then some (showNats (indexSelect32 ws), "big") else
     let os := ones ws
     let spec := (List.range ((os.length + 31) / 32)).map fun k => os.getD (32 * k) 0
     some (showNats (indexSelect32 ws), verdictEq (showNats spec) impl)
@@ -77,7 +77,7 @@ def hIdxSel32R64 : List String → String → Res
   | [ws], impl => do
     let ws ← pNatList ws
     let (s, r) := indexSelect32R64 ws
-    if big ws then some (showNats s ++ ";" ++ showNats r, "na") else
+    if big ws then some (showNats s ++ ";" ++ showNats r, "big") else
     let os := ones ws
     let spec := (List.range ((os.length + 31) / 32)).map fun k => os.getD (32 * k) 0
     let specR := (List.range (ws.length + 1)).map fun k => rank ws (64 * k)
@@ -87,14 +87,14 @@ def hIdxSel32R64 : List String → String → Res
 def hSel32 : List String → String → Res
   | [ws, i], impl => do
     let ws ← pNatList ws; let i ← pNat i
-    some (showOpt showPair (select32 ws (indexSelect32 ws) i), if big ws then "na" else verdictEq (selSpec ws i) impl)
+    some (showOpt showPair (select32 ws (indexSelect32 ws) i), if big ws then "big" else verdictEq (selSpec ws i) impl)
   | _, _ => none
 
 def hSel32R64 : List String → String → Res
   | [ws, i], impl => do
     let ws ← pNatList ws; let i ← pNat i
     let (s, r) := indexSelect32R64 ws
-    some (showOpt showPair (select32R64 ws s r i), if big ws then "na" else verdictEq (selSpec ws i) impl)
+    some (showOpt showPair (select32R64 ws s r i), if big ws then "big" else verdictEq (selSpec ws i) impl)
   | _, _ => none
 
 /-! C12 -/
@@ -106,7 +106,6 @@ def ofSpecOK (ps : List Int) (n : Option Int) (impl : String) : Bool :=
   match pNatList impl with
   | none => false
   | some ws =>
-    if big ws then true else
     let last1 : Int := match ps.getLast? with | none => 0 | some l => l + 1
     let m : Int := max (max (n.getD 0) last1) 0
     ws.length == ((m + 63) / 64).toNat && ws.all (· < 2^64) &&
@@ -116,13 +115,16 @@ def hOf : List String → String → Res
   | [ps, n], impl => do
     let ps ← pIntList ps
     let n ← if n = "none" then some none else (pInt n).map some
-    some (showOpt showNats (bmOf ps n), vb (ofSpecOK ps n impl))
+    let model := bmOf ps n
+    let isBig := ps.length > 3000 || (match model with | some ws => big ws | none => false) ||
+      (match pNatList impl with | some ws => big ws | none => false)
+    some (showOpt showNats model, if isBig then "big" else vb (ofSpecOK ps n impl))
   | _, _ => none
 
 def hToArray : List String → String → Res
   | [ws], impl => do
     let ws ← pNatList ws
-    some (showNats (toArray ws), if big ws then "na" else verdictEq (showNats (ones ws)) impl)
+    some (showNats (toArray ws), if big ws then "big" else verdictEq (showNats (ones ws)) impl)
   | _, _ => none
 
 def hGet : List String → String → Res
@@ -230,13 +232,13 @@ def prevSpec (ws : List Nat) (i e : Nat) : Int :=
 def hNextOne : List String → String → Res
   | [ws, i, e], impl => do
     let ws ← pNatList ws; let i ← pNat i; let e ← pNat e
-    some (showOpt toString (nextOne ws i e), if big ws then "na" else verdictEq (toString (nextSpec ws i e)) impl)
+    some (showOpt toString (nextOne ws i e), if big ws then "big" else verdictEq (toString (nextSpec ws i e)) impl)
   | _, _ => none
 
 def hPrevOne : List String → String → Res
   | [ws, i, e], impl => do
     let ws ← pNatList ws; let i ← pNat i; let e ← pNat e
-    some (showOpt toString (prevOne ws i e), if big ws then "na" else verdictEq (toString (prevSpec ws i e)) impl)
+    some (showOpt toString (prevOne ws i e), if big ws then "big" else verdictEq (toString (prevSpec ws i e)) impl)
   | _, _ => none
 
 /-! C14 -/
@@ -255,7 +257,7 @@ def joinSpecOK (vs : List Nat) (w : Nat) (impl : String) : Bool :=
 def hJoin : List String → String → Res
   | [vs, w], impl => do
     let vs ← pNatList vs; let w ← pNat w
-    some (showOpt showNats (bmJoin vs w), if vs.length > 400 then "na" else vb (joinSpecOK vs w impl))
+    some (showOpt showNats (bmJoin vs w), if vs.length > 400 then "big" else vb (joinSpecOK vs w impl))
   | _, _ => none
 
 def hGetw : List String → String → Res
@@ -275,7 +277,7 @@ def sliceSpecOK (ws : List Nat) (frm to : Nat) (impl : String) : Bool :=
 def hSlice : List String → String → Res
   | [ws, frm, to], impl => do
     let ws ← pNatList ws; let frm ← pNat frm; let to ← pNat to
-    some (showOpt showNats (bmSlice ws frm to), if big ws then "na" else vb (sliceSpecOK ws frm to impl))
+    some (showOpt showNats (bmSlice ws frm to), if big ws then "big" else vb (sliceSpecOK ws frm to impl))
   | _, _ => none
 
 /-! C11 (FromStr32 part) -/
